@@ -395,7 +395,9 @@ def stale_writers(M, c, only=None):
     for D, (deps, refreshers, only_elem) in sorted(der.items()):
         if only is not None and D != only:
             continue
-        if only_elem and not refreshers:
+        if only_elem and not (set(refreshers) - ctor_side):
+            # a table filled element by element and never reset outside construction: its entries are objects in their own right (a portfolio made with
+            # today's date), not a figure kept in step with the fields they were made from
             continue
         refreshing = set(refreshers)
         for n, m in meths.items():
